@@ -236,4 +236,37 @@ def formatBits (f : Fmt) (vol trk : Nat) (secIds : List Nat) : List Bool :=
      else sync 10 ++ bytes (List.replicate 417 0xff)) ++
     sync 20)).flatten
 
+
+/-! ## the formatter `disk525::format` :685, written against the same `Head` interface
+
+`format` creates a `TrackBits` of `bit_count` bits (pointer 0) over a buffer of `buf_len` bytes and lays down
+40 sync bytes, then per sector: address field (prolog, 4&4 volume/track/sector/checksum, epilog), the
+data segment (16 sectors: `encode_sector` of 256 zeros; 13 sectors: ten sync bytes and 417 `FF`), 20 sync
+bytes.  Exactly `bit_count` bits are written, so the pointer is back at 0 (`reset`). -/
+
+/-- `bit_count` of `format` for `nsec` sectors -/
+def Fmt.bitCount (f : Fmt) (nsec : Nat) : Nat :=
+  40 * f.syncBits + nsec * ((3 + 8 + 3) * 8 + 10 * f.syncBits + (3 + f.dataNibs + 3) * 8 + 20 * f.syncBits)
+
+section formatter
+variable {σ : Type} [Head σ]
+
+/-- one iteration of `for sector in 0..sectors` with `sec_addr = sec` -/
+def formatSector (f : Fmt) (vol trk sec : Nat) (t : σ) : σ :=
+  let t1 := writeBytes f.adrPro t
+  let t2 := writeBytes (encode44 vol) t1
+  let t3 := writeBytes (encode44 trk) t2
+  let t4 := writeBytes (encode44 sec) t3
+  let t5 := writeBytes (encode44 (0 ^^^ vol ^^^ trk ^^^ sec)) t4
+  let t6 := writeBytes epi t5
+  let t7 := if f.six then encodeSector f (List.replicate 256 0) t6
+            else writeBytes (List.replicate 417 0xff) (writeSync f.syncBits 10 t6)
+  writeSync f.syncBits 20 t7
+
+/-- `format`: `ids` = the sector address of each iteration (`0..15`, or `DOS32_PHYSICAL`) -/
+def formatTrack (f : Fmt) (vol trk : Nat) (ids : List Nat) (t : σ) : σ :=
+  ids.foldl (fun t s => formatSector f vol trk s t) (writeSync f.syncBits 40 t)
+
+end formatter
+
 end A2Verif.Model.Track
